@@ -508,6 +508,16 @@ fn gen_p(ctx: &Ctx, seed: u64, run_index: u64) -> PScn {
             }
         }
     }
+    // a quarter of the faulted runs place their faults on the calls the program really makes (rehearsal on a copy
+    // of the disk) instead of on the predicted ones
+    if class >= 8 && y.chance(0.25) {
+        let mclass = match class {
+            8..=14 => 0,
+            15..=18 => 1,
+            _ => 2,
+        };
+        plan = vec![PlanEntry { idx: y.next_u64(), kind: PlanKind::Measured(mclass) }];
+    }
     let debug_build = ctx.thorough() && ctx.sut_debug.is_some() && s.chance(0.3);
     PScn { image, inc: Incarnation { argv, entropy: s.next_u64(), plan, debug_build }, rerun_entropy: s.next_u64(), fired_stored: fired, valid_input }
 }
